@@ -13,7 +13,7 @@ def make_markov_case(r, desc, weight_mode=None, rates=None, with_R0=True, tmins=
     d = dict(desc)
     wm = weight_mode or r.choice(['none', 'none', 'edge', 'node', 'both'])
     wk_e = r.choice(['dyadic', 'nondyadic', 'wide', 'withzero', 'one'])
-    wk_n = r.choice(['dyadic', 'nondyadic', 'wide', 'one'])
+    wk_n = r.choice(['dyadic', 'nondyadic', 'wide', 'one', 'withzero'])       # weight 0: that individual never recovers
     if wm in ('edge', 'both'):
         d['ew'] = {TW: gen.weights(r, m, wk_e)}
     if wm in ('node', 'both'):
